@@ -59,6 +59,9 @@ def both : List String → String
 def handler (mode : String) : Option Handler :=
   if mode == "model" then some (.pure both)
   else if mode == "model-asfound" then some (.pure modelOld)
+  -- `judge` = the same decision functions, run from the binary built against the facts snapshot of the validated
+  -- tree (route table, masks): what a route must refuse does not follow the tree under test
+  else if mode == "judge" then some (.pure both)
   else none
 
 end KM.Driver.C06
